@@ -154,3 +154,16 @@ def same_shape(ref, got):
     if "unknown" in ref or "ext_unknown" in ref:
         return "unsupported" in got
     return rk == gk
+
+
+def records_beyond_announced(gen, typ, payload, got):
+    """AT5 0xC0: the number of records a decoded message carries beyond the repeat count the
+    sub-header announces (0 if none / not applicable).  A decoder may be lenient about trailing
+    bytes; it may not turn them into records the console never announced."""
+    if gen != 5 or typ != 0xC0 or len(payload) < 8 or not isinstance(got, dict):
+        return 0
+    announced = (payload[6] << 8) | payload[7]
+    for key in ("acs", "zones", "timers", "records"):
+        if isinstance(got.get(key), (list, tuple)):
+            return max(0, len(got[key]) - announced)
+    return 0
